@@ -86,7 +86,7 @@ class TransientError(Exception):
     pass
 
 
-def make_stream(sim, cnt, length, flavour, every, keyfn, wrap=None, check_on_pull=False, fault_at=None):
+def make_stream(sim, cnt, length, flavour, every, keyfn, wrap=None, check_on_pull=False, fault_at=None, noclose=False):
     """Fresh items; nothing but the consumer side can keep them alive"""
     fault_at = [fault_at]
 
@@ -164,6 +164,8 @@ def make_stream(sim, cnt, length, flavour, every, keyfn, wrap=None, check_on_pul
         async def aclose(self):
             self.i = length
 
+    if noclose:
+        del It.aclose  # a minimal async iterator: __aiter__ and __anext__, nothing to close
     return It(), refs
 
 
@@ -172,6 +174,7 @@ def gen(ch):
     sc["length"] = (50, 120, 300, 800, 2000, 6000)[ch.weighted([12, 10, 6, 4, 2, 1])]
     sc["flavour"] = ch.weighted([4, 4, 1])  # async generator | class-based async iterator | lazy sync Sequence
     sc["every"] = (0, 1, 7, 50)[ch.draw(4)]
+    sc["noclose"] = sc["flavour"] == 1 and ch.chance(1, 3)
     sc["nsrc"] = 1
     t = sc["tool"]
     if t == "await_each":
@@ -238,10 +241,15 @@ def execute(st, ctx):
 
     if tool == "merge":
         keyfn = lambda i: i  # noqa: E731  (pre-sorted)
-    elif tool in ("min", "nsmallest"):
-        keyfn = lambda i: -i  # noqa: E731  (every item is a new best: worst case for retention)
-    elif tool in ("max", "nlargest"):
-        keyfn = lambda i: i  # noqa: E731
+    elif tool in ("min", "nsmallest", "max", "nlargest"):
+        sign = -1 if tool in ("min", "nsmallest") else 1
+        shape = sc["length"] % 3
+        if shape == 0:
+            keyfn = lambda i: sign * i  # noqa: E731  (every item is a new best: worst case for retention)
+        elif shape == 1:
+            keyfn = lambda i: sign * min(i, 12)  # noqa: E731  (a short climb, then a long plateau of ties with the best)
+        else:
+            keyfn = lambda i: sign * (i % 5)  # noqa: E731  (few distinct values: ties with the cut-off all the time)
     elif tool == "groupby":
         keyfn = lambda i: i // (1, 2, 3, 200)[sc["n"] % 4]  # noqa: E731  (many short runs, or long ones)
     else:
@@ -277,7 +285,7 @@ def execute(st, ctx):
             block = (1, 1, 10, 100, 10 ** 6)[sc["n"] % 5]
             kf = lambda i, s=s, block=block: (i // block) * block * nsrc + s * block + i % block  # noqa: E731
         stream, refs = make_stream(sim, cnt, sc["lens"][s], sc["flavour"], sc["every"], kf, wrap, check_on_pull=is_agg,
-                                   fault_at=transient)
+                                   fault_at=transient, noclose=sc.get("noclose", False))
         streams.append(stream)
         all_refs.append(refs)
     res = {"steps": 0, "end": None, "error": None, "tee_bound_max": 0}
